@@ -123,11 +123,17 @@ fn validate_any_string(
         return Some(ValidationError::full(unterminated_string_diagnostic_kind));
     };
 
-    validate_string_body(body, unterminated_string_diagnostic_kind, ascii_only_diagnostic_kind)
+    validate_string_body(
+        body,
+        delimiter,
+        unterminated_string_diagnostic_kind,
+        ascii_only_diagnostic_kind,
+    )
 }
 
 fn validate_string_body(
     body: &str,
+    delimiter: char,
     unterminated_string_diagnostic_kind: ParserDiagnosticKind,
     ascii_only_diagnostic_kind: ParserDiagnosticKind,
 ) -> Option<ValidationError> {
@@ -139,7 +145,14 @@ fn validate_string_body(
         Err(
             unescaper::Error::InvalidChar { pos, .. } | unescaper::Error::ParseIntError { pos, .. },
         ) => {
-            let start = body.chars().take(pos).map(TextWidth::from_char).sum();
+            // The cursor is placed at the character preceding `pos`, in coordinates of the whole
+            // literal (i.e. after the opening delimiter), so it always lies on a char boundary.
+            let start: TextWidth = body
+                .chars()
+                .take(pos.saturating_sub(1))
+                .map(TextWidth::from_char)
+                .chain([TextWidth::from_char(delimiter)])
+                .sum();
             return Some(ValidationError {
                 kind: ParserDiagnosticKind::IllegalStringEscaping,
                 location: ValidationLocation::Cursor(start),
